@@ -42,35 +42,51 @@ func main() {
 	ses := gen.NewSession(run, "c06")
 	defer ses.Close()
 
-	// 1. probe each way alone (no compilation): which ones does thriftgo accept?
-	probeEnv := universe.NewConstEnv("c06")
-	pw := universe.Ways(probeEnv)
-	var probes []*gen.Item
-	for i := range pw {
-		e := universe.NewConstEnv("c06")
-		w := universe.Ways(e)[i]
-		universe.Attach(e.Main, w)
-		probes = append(probes, &gen.Item{Key: fmt.Sprintf("probe%d", i), Prog: &idl.Program{Files: []*idl.File{e.Main, e.Inc}}, Recurse: true})
+	type family struct {
+		name   string
+		perWay bool // one item per way, so that a way whose code does not compile (C01's subject) does not hide the others
+		mk     func() (main, inc *idl.File, ways []*universe.Way)
 	}
+	families := []family{
+		{"std", false, func() (*idl.File, *idl.File, []*universe.Way) {
+			e := universe.NewConstEnv("c06")
+			return e.Main, e.Inc, universe.Ways(e)
+		}},
+		// an include whose Go package name equals the including file's, with constants of the same names
+		{"samepkg", true, func() (*idl.File, *idl.File, []*universe.Way) { return universe.SamePkgFamily("c06s") }},
+	}
+	// 1. probe each way alone (no compilation): which ones does thriftgo accept?
 	pb, err := gen.NewBatch(ses.Scratch+"/probe", ses.Batch.Thriftgo)
 	if err != nil {
 		run.Fatal("%v", err)
 	}
-	for _, p := range probes {
-		pb.Add(p)
-	}
-	pb.Generate()
 	accepted := map[string]bool{}
 	var rejected []string
-	for i, p := range probes {
-		if p.Exit == 0 {
-			accepted[pw[i].Name] = true
-		} else {
-			rejected = append(rejected, pw[i].Name+": "+lastLine(p.Stderr+p.Stdout))
-		}
-		run.Eval("probe|"+pw[i].Name, false)
+	type probe struct {
+		it   *gen.Item
+		name string
 	}
-	run.Set("ways", len(pw))
+	var probes []probe
+	nWays := 0
+	for _, fam := range families {
+		_, _, pw := fam.mk()
+		nWays += len(pw)
+		for i := range pw {
+			m, inc, ws := fam.mk()
+			universe.Attach(m, ws[i])
+			probes = append(probes, probe{pb.Add(&gen.Item{Key: fmt.Sprintf("probe-%s-%d", fam.name, i), Prog: &idl.Program{Files: []*idl.File{m, inc}}, Recurse: true}), pw[i].Name})
+		}
+	}
+	pb.Generate()
+	for _, p := range probes {
+		if p.it.Exit == 0 {
+			accepted[p.name] = true
+		} else {
+			rejected = append(rejected, p.name+": "+lastLine(p.it.Stderr+p.it.Stdout))
+		}
+		run.Eval("probe|"+p.name, false)
+	}
+	run.Set("ways", nWays)
 	run.Set("ways_rejected_by_thriftgo", rejected)
 
 	// 2. the combined program of accepted ways under every configuration
@@ -79,38 +95,62 @@ func main() {
 		configs = append(configs, []string{"gen_setter"}, []string{"nil_safe"}, []string{"keep_unknown_fields"}, []string{"unescape_double_quote=false"}, []string{"with_reflection"}, []string{"reorder_fields"}, []string{"scan_value_for_enum=false"})
 	}
 	type cfgRun struct {
-		it *gen.Item
-		ws []*way
+		it  *gen.Item
+		ws  []*way
+		cfg []string
 	}
 	var runs []*cfgRun
 	for ci, c := range configs {
-		e := universe.NewConstEnv("c06")
-		var ws []*way
-		var want []string
-		for _, uw := range universe.Ways(e) {
-			if accepted[uw.Name] {
-				universe.Attach(e.Main, uw)
-				ev, err := refsem.Eval(uw.T, uw.V)
-				if err != nil {
-					run.Fatal("reference evaluation of %s: %v", uw.Name, err)
+		for _, fam := range families {
+			_, _, all := fam.mk()
+			groups := [][]int{nil} // nil = all ways in one item
+			if fam.perWay {
+				groups = nil
+				for i := range all {
+					groups = append(groups, []int{i})
 				}
-				ws = append(ws, &way{name: uw.Name, t: uw.T, v: uw.V, c: uw.C, s: uw.S, ev: refsem.CompleteValue(uw.T, ev)})
-				want = append(want, uw.C.Name)
+			}
+			for gi, grp := range groups {
+				m, inc, uws := fam.mk()
+				var ws []*way
+				var want []string
+				for wi, uw := range uws {
+					if grp != nil && wi != grp[0] {
+						continue
+					}
+					if accepted[uw.Name] {
+						universe.Attach(m, uw)
+						ev, err := refsem.Eval(uw.T, uw.V)
+						if err != nil {
+							run.Fatal("reference evaluation of %s: %v", uw.Name, err)
+						}
+						ws = append(ws, &way{name: uw.Name, t: uw.T, v: uw.V, c: uw.C, s: uw.S, ev: refsem.CompleteValue(uw.T, ev)})
+						want = append(want, uw.C.Name)
+					}
+				}
+				if len(ws) == 0 {
+					continue
+				}
+				key := fmt.Sprintf("c%d", ci)
+				if fam.name != "std" {
+					key += fmt.Sprintf("%s%d", fam.name, gi)
+				}
+				it := ses.Batch.Add(&gen.Item{Key: key, Prog: &idl.Program{Files: []*idl.File{m, inc}}, Opts: c, Recurse: true, WantVars: want})
+				runs = append(runs, &cfgRun{it, ws, c})
 			}
 		}
-		it := ses.Batch.Add(&gen.Item{Key: fmt.Sprintf("c%d", ci), Prog: &idl.Program{Files: []*idl.File{e.Main, e.Inc}}, Opts: c, Recurse: true, WantVars: want})
-		runs = append(runs, &cfgRun{it, ws})
 	}
 	ses.Start("c0")
 
 	outcomes := map[string]int64{}
-	for ci, cr := range runs {
+	for ri, cr := range runs {
+		ci := ri
 		it := cr.it
 		if !gen.Usable(it) {
 			continue
 		}
 		viol := func(class, what string, w *way) {
-			run.Violate(evid.Violation{Class: class, What: what, Replay: map[string]any{"way": w.name, "config": configs[ci], "const": idl.Render(&idl.File{Path: "x.thrift", Defs: []idl.Def{{Const: w.c}}}), "expected": w.ev}})
+			run.Violate(evid.Violation{Class: class, What: what, Replay: map[string]any{"way": w.name, "config": cr.cfg, "const": idl.Render(&idl.File{Path: "x.thrift", Defs: []idl.Def{{Const: w.c}}}), "expected": w.ev}})
 		}
 		var reqs []*gen.Req
 		type q struct {
